@@ -9,7 +9,8 @@
      4 a raising change handler: outcome differs from the twin's, or another handler's call is missing/extra
      5 the faulted object differs from the twin (now, hence in every follow-up operation)
      6 without a fired fault outcome and handler calls differ from the twin's
-     7 handler registrations (sizes of the notifier lists) differ from the twin's *)
+     7 handler registrations (sizes of the notifier lists) differ from the twin's
+     8 values read from attributes outside the model differ from the twin's *)
 From Coq Require Import ZArith List Bool.
 From TV Require Import Common.LSet Common.Harness C19.Model.
 Import ListNotations.
@@ -37,7 +38,9 @@ Definition st_eqb (a b : st) : bool :=
   && opt_eqb Z.eqb (c a) (c b) && Z.eqb (ad a) (ad b) && opt_eqb Z.eqb (y a) (y b) && Z.eqb (ad2 a) (ad2 b).
 
 (* o_reg: digest of the sizes of all notifier lists of the object (handler registrations) *)
-Record obs := mkObs { o_out : outcome; o_st : st; o_log : list logent; o_reg : Z }.
+(* o_aux: digest of values read from attributes that are outside the model (a legacy depends_on cached
+   property, the traits added by opaque operations): law only, faulted object vs twin *)
+Record obs := mkObs { o_out : outcome; o_st : st; o_log : list logent; o_reg : Z; o_aux : Z }.
 
 Definition hid (e : logent) : nat := fst (fst e).
 
@@ -60,7 +63,8 @@ Definition law_step (before : st) (pl : plan) (fired : bool) (a tw : obs) : list
             | FaultCall _ _ => fired || (outcome_eqb (o_out a) (o_out tw) && log_eqb (o_log a) (o_log tw))
             | FaultHandler _ _ => true
             end)
-  ++ chk 7 (Z.eqb (o_reg a) (o_reg tw)).
+  ++ chk 7 (Z.eqb (o_reg a) (o_reg tw))
+  ++ chk 8 (Z.eqb (o_aux a) (o_aux tw)).
 
 Definition hstep := (op * plan * bool * obs * obs)%type.
 
